@@ -9,7 +9,7 @@ import time
 from common import BUILD, REPLAYS, REPO, VERIF, base_env, run, write_json
 
 
-def native_replay(replay_dir, harness, vals, in_crate, timeout=1800, repo_crate=None):
+def native_replay(replay_dir, harness, vals, in_crate, timeout=1800, repo_crate=None, cargo_args=None):
     """Re-execute the harness body natively with the recorded values.
     external harness crate: `cargo run` in the crate (its main() is the replay runner);
     in-crate hook: the crate's lib test `gix_verif_replay`, built with --cfg gix_verif.
@@ -20,7 +20,7 @@ def native_replay(replay_dir, harness, vals, in_crate, timeout=1800, repo_crate=
     if in_crate:
         env["RUSTFLAGS"] = "--cfg gix_verif"
         env["CARGO_TARGET_DIR"] = os.path.join(BUILD, "native", "in-crate")
-        cmd = ["cargo", "test", "--offline", "--manifest-path", os.path.join(REPO, repo_crate, "Cargo.toml"), "--lib", "--", "gix_verif_replay", "--nocapture", "--test-threads", "1"]
+        cmd = ["cargo", "test", "--offline", "--manifest-path", os.path.join(REPO, repo_crate, "Cargo.toml"), "--lib"] + list(cargo_args or []) + ["--", "gix_verif_replay", "--nocapture", "--test-threads", "1"]
         cwd = REPO
     else:
         env["CARGO_TARGET_DIR"] = os.path.join(BUILD, "native", os.path.basename(os.path.dirname(replay_dir.rstrip("/"))))
@@ -54,10 +54,10 @@ def handle_violation(prop, r, units):
         doc = {"property": prop, "backend": "kani", "unit": r["unit"], "harness": r["harness"],
                "failed_obligations": [{"check": c["name"], "description": c["description"], "location": c["location"]} for c in r["failed_checks"]],
                "concrete_vals": r.get("concrete_vals"), "kani_cmd": r.get("cmd"), "kani_log": r.get("log"),
-               "replay_dir": r.get("replay_dir"), "in_crate": r.get("in_crate", False), "repo_crate": r.get("repo_crate")}
+               "replay_dir": r.get("replay_dir"), "in_crate": r.get("in_crate", False), "repo_crate": r.get("repo_crate"), "cargo_args": r.get("cargo_args")}
         suffix = ""
         if r.get("concrete_vals") is not None and r.get("replay_dir"):
-            nr = native_replay(r["replay_dir"], r["harness"], r["concrete_vals"], r.get("in_crate", False), repo_crate=r.get("repo_crate"))
+            nr = native_replay(r["replay_dir"], r["harness"], r["concrete_vals"], r.get("in_crate", False), repo_crate=r.get("repo_crate"), cargo_args=r.get("cargo_args"))
             doc["native_replay"] = nr
             if nr["reproduced"] is True:
                 doc["verdict"] = "counter-example reproduced natively against the real code: " + nr.get("panic", "")
@@ -90,7 +90,7 @@ def handle_violation(prop, r, units):
 def replay_file(path):
     d = json.load(open(path))
     if d.get("backend") == "kani" and d.get("concrete_vals") is not None and d.get("replay_dir"):
-        nr = native_replay(d["replay_dir"], d["harness"], d["concrete_vals"], d.get("in_crate", False), repo_crate=d.get("repo_crate"))
+        nr = native_replay(d["replay_dir"], d["harness"], d["concrete_vals"], d.get("in_crate", False), repo_crate=d.get("repo_crate"), cargo_args=d.get("cargo_args"))
         print(nr["output"])
         if nr["reproduced"] is True:
             print("REPRODUCED property=%s harness=%s: %s" % (d["property"], d["harness"], nr.get("panic", "")))
